@@ -2,6 +2,7 @@
 pub mod c01;
 pub mod c02;
 pub mod common;
+pub mod commonview;
 pub mod fixed;
 pub mod hist;
 pub mod streams;
@@ -23,6 +24,7 @@ pub fn dispatch(w: &mut W) {
         "C11" => hist::run_c11(w),
         "C12" => hist::run_c12(w),
         "C14" => hist::run_c14(w),
+        "C13" => commonview::run_c13(w),
         other => {
             eprintln!("no worker for property {}", other);
             std::process::exit(2);
